@@ -19,6 +19,32 @@ from .values import Unsupported, ABytes, BytesVal, byte_range
 from .interp import PathEnd, _Break, _Continue, _Return
 
 
+class HavocValue:
+    """Value of a local variable that the loop body assigns but the loop contract does not describe:
+    after the loop it is arbitrary.  Any use that needs its content is undecided, never assumed."""
+
+    def __init__(self, name):
+        self.name = name
+
+    def __repr__(self):
+        return f"<arbitrary value of {self.name!r} after a contracted loop>"
+
+
+def havoc_assigned(it, node, env, keep=()):
+    """Frame rule of the loop contracts: every local name the loop (header or body) can assign and the contract
+    does not carry is arbitrary after the loop."""
+    import ast
+    names = set()
+    for n in ast.walk(node):
+        if isinstance(n, ast.Name) and isinstance(n.ctx, (ast.Store, ast.Del)):
+            names.add(n.id)
+        elif isinstance(n, (ast.FunctionDef, ast.AsyncFunctionDef, ast.ClassDef)):
+            names.add(n.name)
+    for name in sorted(names):
+        if name not in keep:
+            env.vars[name] = HavocValue(name)
+
+
 class ForInvariant:
     """Loop contract for `for <target> in <iterable>` keyed by (function fullname, loop ordinal).
 
@@ -74,6 +100,7 @@ class ForInvariant:
         if self.define:
             self.define(it, None, iterable)
         P.assume(self.inv(it, n, st, iterable))
+        havoc_assigned(it, node, env, keep=self.state)
         for v, val in st.items():
             env.vars[v] = val
         if node.orelse:
@@ -195,6 +222,7 @@ class StateLoop:
         if self.define:
             self.define(it, None, entry)
         st = self.at(it, n, entry)
+        havoc_assigned(it, node, env, keep=self.vars)
         for v, val in st.items():
             env.vars[v] = val
         if not is_for:
